@@ -177,6 +177,13 @@ def summarise(ex, s, env, seq):
     npc, nobl = len(p.pc), len(p.obls)
     saved_env = dict(env)
     saved_st = ex.st.copy()
+    if getattr(seq, "range_bounds", None):
+        lo, hi = seq.range_bounds      # quantify over the values themselves
+        dom = lambda j: And(lo <= j, j < hi)
+        elem = lambda j: VZ(j, "int")
+    else:
+        dom = lambda j: And(0 <= j, j < seq.n)
+        elem = seq.at
     stack = [[]]
     contributions = {}   # id(acc) -> (acc, [(cond, V)])
     counts = []
@@ -187,13 +194,13 @@ def summarise(ex, s, env, seq):
         env2 = dict(saved_env)
         ex.st = saved_st.copy()
         del p.pc[npc:]
-        ex.assume(And(0 <= i, i < seq.n))
+        ex.assume(dom(i))
         rec = []
         old_decide, old_rec = p.decide, getattr(ex, "recorder", None)
         p.decide = sub.decide
         ex.recorder = rec
         try:
-            ex.assign(s.target, seq.at(i), env2)
+            ex.assign(s.target, elem(i), env2)
             ex.exec_block(s.body, env2)
         except (PyReturn, PyRaise):
             raise Unsupported("return/raise inside a loop without a loop contract at %d" % s.lineno)
@@ -236,13 +243,21 @@ def summarise(ex, s, env, seq):
                 raise Unsupported("mixed-kind set accumulator")
             mem = fresh("acc.set", ArraySort(sort_of(k), BOOL))
             oldmem = cur.mem
+            # membership, as two implications with E-matching friendly shapes:
+            #  every contribution is a member; every member is old or a contribution
+            for cond, val in contrib:
+                vt = to_term(val, k)
+                ex.assume(FA([INT], lambda j, cond=cond, vt=vt: Implies(
+                    And(dom(j), z3.substitute(cond, (i, j))), mem[z3.substitute(vt, (i, j))])))
+            if oldmem is not None:
+                ex.assume(FA([sort_of(k)], lambda y: Implies(oldmem[y], mem[y]), pats=lambda y: [oldmem[y]]))
 
             def rhs(y, contrib=contrib, k=k, oldmem=oldmem):
-                ex_ = EX([INT], lambda j: And(0 <= j, j < n, disj(
+                ex_ = EX([INT], lambda j: And(dom(j), disj(
                     [And(z3.substitute(cond, (i, j)), z3.substitute(to_term(val, k), (i, j)) == y)
                      for cond, val in contrib])))
                 return Or(oldmem[y], ex_) if oldmem is not None else ex_
-            ex.assume(FA([sort_of(k)], lambda y: mem[y] == rhs(y), pats=lambda y: [mem[y]]))
+            ex.assume(FA([sort_of(k)], lambda y: Implies(mem[y], rhs(y)), pats=lambda y: [mem[y]]))
             acc.cur = VSet(k, mem)
         elif isinstance(cur, VList):
             if not cur.n.eq(IntVal(0)):
@@ -250,6 +265,8 @@ def summarise(ex, s, env, seq):
             always_once = all(ids.count(id(acc)) == 1 for _, ids in counts)
             if always_once and len(counts) == 1:
                 val = contrib[0][1]
+                if getattr(seq, "range_bounds", None):
+                    raise Unsupported("list built over a range at %d" % s.lineno)
                 acc.cur = VList(n, lambda kk, val=val: vsubst(val, i, kk))
                 if isinstance(seq, VRowList):
                     acc.cur.origin = seq
